@@ -21,6 +21,7 @@ import (
 	"runtime"
 	"runtime/debug"
 	"sync"
+	"sync/atomic"
 	"time"
 	"unsafe"
 )
@@ -247,7 +248,11 @@ type Sim struct {
 }
 
 // cur is the active simulation, nil in pass-through mode.
-var cur *Sim
+// An atomic pointer: goroutines of pass-through code (free-running race tier)
+// read it while no simulation runs, and the next Run writes it; a plain
+// variable would be a data race of the kernel that the race detector
+// (rightly) reports. The load orders nothing between tasks: only Run stores.
+var curp atomic.Pointer[Sim]
 
 // pool of one: Sims are big.
 var simPool *Sim
@@ -255,12 +260,12 @@ var simPool *Sim
 // Active reports whether a simulation is running in this OS process.
 //
 //go:norace
-func Active() bool { return cur != nil }
+func Active() bool { return curp.Load() != nil }
 
 // Current returns the active simulation.
 //
 //go:norace
-func Current() *Sim { return cur }
+func Current() *Sim { return curp.Load() }
 
 func newSim() *Sim {
 	s := &Sim{}
@@ -398,7 +403,7 @@ const (
 //
 //go:norace
 func Event(a, b, c uint64) {
-	if s := cur; s != nil {
+	if s := curp.Load(); s != nil {
 		s.ev(evUser, a, b, c)
 	}
 }
@@ -438,7 +443,7 @@ func genZero(s *Sim, n int) int { return 0 }
 //
 //go:norace
 func Choose(n int) int {
-	s := cur
+	s := curp.Load()
 	if s == nil || n <= 1 {
 		return 0
 	}
@@ -962,7 +967,7 @@ func (s *Sim) obj(p unsafe.Pointer, kind objKind) int32 {
 // Run executes main as the main task of process 0 (the controller) and
 // returns when every task has finished, been killed, or the run was stopped.
 func Run(cfg Config, main func()) Result {
-	if cur != nil {
+	if curp.Load() != nil {
 		panic("verifsim: nested Run")
 	}
 	s := simPool
@@ -977,7 +982,7 @@ func Run(cfg Config, main func()) Result {
 	s.procs[0] = process{id: 0, name: "controller", alive: true, main: 0}
 	s.nprocs = 1
 	t := s.newTask(0, main)
-	cur = s
+	curp.Store(s)
 	s.running = t.id
 	s.start(t)
 	s.open(t)
@@ -986,7 +991,7 @@ func Run(cfg Config, main func()) Result {
 		s.exitMu.Lock()
 		s.exitMu.Unlock()
 	}
-	cur = nil
+	curp.Store(nil)
 	return s.result()
 }
 
@@ -1043,7 +1048,7 @@ var faultNames = [8]string{"crash", "crash_write", "torn", "eio", "enospc", "clo
 //
 //go:norace
 func FaultFired(kind int) {
-	if s := cur; s != nil && kind >= 0 && kind < len(s.fired) {
+	if s := curp.Load(); s != nil && kind >= 0 && kind < len(s.fired) {
 		s.fired[kind]++
 		s.ev(evFault, uint64(kind), 0, 0)
 	}
@@ -1064,7 +1069,7 @@ const (
 //
 //go:norace
 func Probe(name string) {
-	s := cur
+	s := curp.Load()
 	if s == nil {
 		return
 	}
